@@ -8,7 +8,15 @@
      kind = "idx"    rows + index array   -> starts_for / positions / masks, both levels
      kind = "graph"  bond graph (n, E)    -> molecules, find_connected for every root,
                                              symbolic components of its subdivisions
-     kind = "lemma"  (n, E, L)            -> the concretely subdivided graph and its components *)
+     kind = "lemma"  (n, E, L)            -> the concretely subdivided graph and its components
+     kind = "extra"  rows of 6 components -> the views on arrays whose non-key annotations
+                                             (hetero flag, atom name) vary independently
+     kind = "hist"   rows + data + edits  -> a HISTORY on one live array: all views, then
+                                             for each in-place edit the edit and all views again;
+                                             exp[k] = rows and views after k - 1 edits
+     kind = "ghist"  (n, E) + bond edits   -> a history on one live bond list: the molecule views,
+                                             then for each add_bond / remove_bond the edit and
+                                             the views again; exp[k] = bonds and views after k - 1 edits *)
 EXTENDS Segments, BondGraph, TLC
 
 CONSTANTS FullLen,     \* all row sequences up to this length over the full 16-row alphabet
@@ -18,7 +26,12 @@ CONSTANTS FullLen,     \* all row sequences up to this length over the full 16-r
           GraphN,      \* all graphs with up to this many atoms
           LemmaN,      \* lemma family: graphs with up to this many atoms ...
           LemmaL,      \* ... subdivided with 1..LemmaL new atoms per bond
-          LoopN        \* loop family: graphs with up to this many atoms plus one self-bond
+          LoopN,       \* loop family: graphs with up to this many atoms plus one self-bond
+          ExtraLen,    \* extra family: row sequences 1..ExtraLen over the 12-row alphabet RowsExtra
+          HistRows,    \* hist family: every array of 1..HistRows atoms over RowsHist x every single edit
+          Hist2Rows,   \* hist family: uniform arrays of 1..Hist2Rows atoms x every pair of edits
+          GHistN,      \* ghist family: every graph on 2..GHistN atoms x every single bond edit
+          GHist2N      \* ghist family: every graph on 2..GHist2N atoms x every pair of bond edits
 
 VARIABLES kind, inp, exp
 vars == <<kind, inp, exp>>
@@ -33,6 +46,27 @@ RowsSmall == {<<"A", 1, "", "X">>, <<"A", 2, "", "X">>, <<"B", 1, "", "X">>,
 RowsIdx == {<<"A", 1, "", "X">>, <<"A", 2, "", "X">>, <<"B", 1, "", "X">>}
 
 RowSeqs == BSeq(RowsFull, FullLen) \cup BSeq(RowsSmall, SmallLen)
+
+\* the non-key annotations <<hetero, atom name>> vary independently of the keys
+Extras == {<<FALSE, "CA">>, <<TRUE, "CA">>, <<FALSE, "N">>, <<TRUE, "N">>}
+RowsExtra == {r \o x : r \in RowsIdx, x \in Extras}
+RowsHist == {r \o <<FALSE, "CA">> : r \in RowsIdx}
+Row0 == <<"A", 1, "", "X", FALSE, "CA">>
+
+\* the values an edit may write, per field; whole atoms for array[i] = Atom(...)
+FieldVals == <<<<"A", "B">>, <<1, 2>>, <<"", "A">>, <<"X", "Y">>, <<FALSE, TRUE>>, <<"CA", "N">>>>
+AtomRows == <<<<"A", 1, "", "X", FALSE, "CA">>, <<"A", 2, "", "X", FALSE, "CA">>,
+              <<"B", 1, "", "X", FALSE, "CA">>, <<"A", 1, "", "Y", TRUE, "N">>>>
+\* edits as tuples of a string and small integers <<kind, field, lo, hi, value number>>
+EditCodes(n) ==
+  {<<"set", f, i, i + 1, w>> : f \in 1..NFields, i \in 0..(n - 1), w \in 1..2}
+  \cup {<<"assign", f, i, i + 1, w>> : f \in 1..NFields, i \in 0..(n - 1), w \in 1..2}
+  \cup {c \in {<<"fill", f, lo, hi, w>> : f \in 1..NFields, lo \in 0..(n - 2), hi \in 2..n, w \in 1..2} :
+            c[4] - c[3] >= 2}
+  \cup {<<"atom", 0, i, i + 1, w>> : i \in 0..(n - 1), w \in 1..Len(AtomRows)}
+Decode(c) ==
+  [kind |-> c[1], f |-> c[2], lo |-> c[3], hi |-> c[4],
+   v |-> IF c[1] = "atom" THEN AtomRows[c[5]] ELSE FieldVals[c[2]][c[5]]]
 
 \* data to be reduced: distinct values of both signs / ties
 D1 == <<3, -1, 4, -5, 9, 2, -6>>
@@ -76,6 +110,35 @@ LemmaExp(n, E, L) ==
   LET g == Subdivide(n, E, L) IN
   [n |-> g.n, E |-> g.E, eseq |-> EdgeSeq(E), comps |-> Op_MoleculeIndices(g.n, g.E).out, count |-> Op_MoleculeCount(g.n, g.E).out]
 
+\* the views asked at every step of a history (index-taking views for every atom)
+HFuns == {"sum", "first"}
+AllAtoms(n) == [k \in 1..n |-> k - 1]
+HView(level, rows, data) ==
+  LET all == AllAtoms(Len(rows))  c == DeclCount(level, rows) IN
+  [starts     |-> Op_Starts(level, rows, FALSE).out,
+   startsStop |-> Op_Starts(level, rows, TRUE).out,
+   count      |-> Op_Count(level, rows).out,
+   iter       |-> Op_Iter(level, rows).out,
+   apply      |-> [f \in HFuns |-> Op_Apply(level, rows, data, f)],
+   spreadVals |-> SpreadVals(c),
+   spread     |-> Op_Spread(level, rows, SpreadVals(c)).out,
+   sf         |-> Op_StartsFor(level, rows, all),
+   pos        |-> Op_Positions(level, rows, all),
+   masks      |-> Op_Masks(level, rows, all)]
+HStep(rows, data) ==
+  [rows |-> rows, residue |-> HView("residue", rows, data), chain |-> HView("chain", rows, data),
+   residues |-> Op_Residues(rows).out, chains |-> Op_Chains(rows).out]
+HistExp(rows, data, edits) ==
+  [k \in 1..(Len(edits) + 1) |-> HStep(ApplyEdits(rows, SubSeq(edits, 1, k - 1)), data)]
+\* one step of a history on a bond list
+GStep(n, E) ==
+  [E     |-> E,
+   comps |-> Op_MoleculeIndices(n, E).out,
+   count |-> Op_MoleculeCount(n, E).out,
+   fc    |-> [k \in 1..(n + 2) |-> <<k - 2, Op_FindConnected(n, E, k - 2)>>]]
+BondEdits(n) == {b \in [how : BondEditKinds, i : Atoms(n), j : Atoms(n)] : b.i < b.j}
+GHistExp(n, E, bs) == [k \in 1..(Len(bs) + 1) |-> GStep(n, ApplyBondEdits(E, SubSeq(bs, 1, k - 1)))]
+
 (* root -> one "chunk" state per group of inputs -> the inputs.  (TLC evaluates initial states
    and their invariants in one thread; successors of different chunk states are generated and
    checked by all workers.) *)
@@ -89,8 +152,15 @@ Chunks ==
   \cup UNION {{<<"graph", n, E0>> : E0 \in SUBSET ZeroPairs(n)} : n \in 0..GraphN}
   \cup {<<"lemma", n, L>> : n \in 2..LemmaN, L \in 1..LemmaL}
   \cup {<<"loop", n, a>> : n \in 1..LoopN, a \in 0..(LoopN - 1)}
+  \cup {<<"extra", r>> : r \in RowsExtra}
+  \cup {<<"hist", rows>> : rows \in BSeq(RowsHist, HistRows) \ {<<>>}}
+  \cup UNION {{<<"hist2", n, c>> : c \in EditCodes(n)} : n \in 1..Hist2Rows}
+  \cup UNION {{<<"ghist", n, E>> : E \in SUBSET AllPairs(n)} : n \in 2..GHistN}
 
 Set(k, i, e) == kind' = k /\ inp' = i /\ exp' = e
+HistState(k, rows, edits) ==
+  LET data == SubSeq(D1, 1, Len(rows)) IN
+  Set(k, [rows |-> rows, data |-> data, edits |-> edits], HistExp(rows, data, edits))
 SegState(rows) == \E data \in DataFor(rows) : Set("seg", [rows |-> rows, data |-> data], SegExp(rows, data))
 
 Expand(c) ==
@@ -112,6 +182,19 @@ Expand(c) ==
          \E g \in Graphs(c[2]) :
            /\ c[3] < c[2]
            /\ Set("loop", [n |-> g.n, E |-> g.E \cup {<<c[3], c[3]>>}, plain |-> g.E], GraphExp(g.n, g.E))
+    [] c[1] = "extra" ->
+         \E rest \in BSeq(RowsExtra, ExtraLen - 1) : HistState("extra", <<c[2]>> \o rest, <<>>)
+    [] c[1] = "hist" ->
+         \E e \in EditCodes(Len(c[2])) : HistState("hist", c[2], <<Decode(e)>>)
+    [] c[1] = "ghist" ->
+         \/ \E b1 \in BondEdits(c[2]) :
+              Set("ghist", [n |-> c[2], E |-> c[3], edits |-> <<b1>>], GHistExp(c[2], c[3], <<b1>>))
+         \/ /\ c[2] <= GHist2N
+            /\ \E b1 \in BondEdits(c[2]) : \E b2 \in BondEdits(c[2]) :
+                 Set("ghist", [n |-> c[2], E |-> c[3], edits |-> <<b1, b2>>], GHistExp(c[2], c[3], <<b1, b2>>))
+    [] c[1] = "hist2" ->
+         \E e \in EditCodes(c[2]) :
+           HistState("hist", [k \in 1..c[2] |-> Row0], <<Decode(c[3]), Decode(e)>>)
 
 Init == kind = "root" /\ inp = <<>> /\ exp = <<>>
 Next ==
@@ -166,4 +249,51 @@ InvLemma ==
   kind = "lemma" =>
     /\ Law_Subdivide(inp.n, inp.E, inp.L)
     /\ exp.comps = SubComponents(inp.n, inp.E, inp.L)
+
+\* every step of a history answers for the rows as they are after the edits made so far:
+\* the views of step k are the per-atom recomputation on exp[k].rows = edits 1..k-1 applied
+HStepOk(st, data) ==
+  LET rows == st.rows  all == AllAtoms(Len(rows)) IN
+  /\ Law_ChainsCoarser(rows)
+  /\ \A level \in Levels :
+       LET v == st[level] IN
+       /\ Law_KeyOnly(level, rows)
+       /\ Law_Starts(level, rows)
+       /\ Law_PerAtom(level, rows)
+       /\ Law_IterConcat(level, rows)
+       /\ ToSet(v.starts) = StartSet(level, rows)
+       /\ v.count = DeclCount(level, rows)
+       /\ v.iter = DeclIter(level, rows)
+       /\ \A f \in HFuns : v.apply[f].out = DeclApply(level, rows, data, f)
+       /\ v.spread = DeclSpread(level, rows, v.spreadVals)
+       /\ v.sf.oc = "ok" /\ v.pos.oc = "ok" /\ v.masks.oc = "ok"
+       /\ v.sf.out = [k \in DOMAIN all |-> StartOf(level, rows, all[k])]
+       /\ v.pos.out = [k \in DOMAIN all |-> PositionOf(level, rows, all[k])]
+       /\ v.masks.out = [k \in DOMAIN all |-> MaskOf(level, rows, all[k])]
+
+InvHist ==
+  kind \in {"hist", "extra"} =>
+    /\ Len(inp.rows) > 0 /\ Dom_Data(inp.rows, inp.data)
+    /\ Len(exp) = Len(inp.edits) + 1
+    /\ (kind = "extra" => inp.edits = <<>>)
+    /\ \A k \in DOMAIN inp.edits : Dom_Edit(Len(inp.rows), inp.edits[k])
+    /\ \A k \in DOMAIN exp :
+         /\ exp[k].rows = ApplyEdits(inp.rows, SubSeq(inp.edits, 1, k - 1))
+         /\ HStepOk(exp[k], inp.data)
+         /\ k > 1 => \A level \in Levels : Law_EditLocal(level, exp[k - 1].rows, inp.edits[k - 1])
+
+\* every step of a bond history answers for the bonds as they are after the edits so far
+InvGHist ==
+  kind = "ghist" =>
+    /\ Len(exp) = Len(inp.edits) + 1
+    /\ \A k \in DOMAIN inp.edits : Dom_BondEdit(inp.n, inp.edits[k])
+    /\ \A k \in DOMAIN exp :
+         LET E == exp[k].E IN
+         /\ E = ApplyBondEdits(inp.E, SubSeq(inp.edits, 1, k - 1))
+         /\ E \subseteq AllPairs(inp.n)
+         /\ Law_Components(inp.n, E)
+         /\ exp[k].comps = Components(inp.n, E)
+         /\ exp[k].count = Cardinality(Components(inp.n, E))
+         /\ \A r \in Atoms(inp.n) : exp[k].fc[r + 2][2].out = Reach(inp.n, E, r)
+         /\ k > 1 => Law_BondEdit(inp.n, exp[k - 1].E, inp.edits[k - 1])
 =============================================================================
